@@ -236,19 +236,39 @@ def check(cx):
     if fw:
         cu = [c for c in fw.calls() if c.callee == "std::panic::catch_unwind"]
         cx.verdict(bool(cu), r5, "worker-survives-panic", fw.where(), "jobs run under catch_unwind", "a panicking job kills its worker (D10)")
-    for name in ("run", "run_with_result"):
-        g = p.fns.get("multithreading::runner::SharedTaskRunner::%s::{closure#0}" % name)
-        if not g:
-            cx.bad(r5, name + ":anchor-missing", "", "job closure of SharedTaskRunner::%s not found" % name)
-            continue
+    # the submitter side, whatever the methods are called and however the submission is factored: (1) every job closure of the
+    # runner that reports through a channel sends on every path; (2) a method that waits on the channel reports a closed channel as
+    # an error; (3) while it waits no Sender of its own is alive - a worker that panics drops the job and with it the only sender, and
+    # that is what wakes the waiting client; a clone kept by the submitter (`submit(task, &tx)`) leaves it blocked forever
+    RUNNER = "multithreading::runner::SharedTaskRunner"
+    runner_fns = [g for g in K.each_fn(p) if (g.root or g.id).startswith(RUNNER + "::") or g.impl_adt == RUNNER]
+    jobs = [g for g in runner_fns if g.kind == "closure" and any(c.callee.endswith("Sender::<T>::send") for c in g.calls())]
+    if not jobs:
+        cx.bad(r5, "result-sent:anchor-missing", "", "no job closure of SharedTaskRunner sends a result")
+    for g in jobs:
         snd = {c.bb for c in g.calls() if c.callee.endswith("Sender::<T>::send")}
-        cx.verdict(bool(snd) and not g.success_returns_from(0, blocked=snd), r5, name + ":result-sent", g.where(),
-                   "the result is sent on every path", "the job closure of %s can finish without sending the result: the submitter blocks forever" % name)
-        h = p.fns.get("multithreading::runner::SharedTaskRunner::%s" % name)
-        if h:
-            rc = [c for c in h.calls() if c.callee.endswith("Receiver::<T>::recv")]
-            cx.verdict(bool(rc) and bool(h.reachable(rc[0].term["to"]) & h.err_blocks()) if rc else False, r5, name + ":recv-error-propagated", h.where(),
-                       "a closed channel is reported as an error", "recv errors are not propagated")
+        owner = (g.root or g.id).rsplit("::", 1)[-1]
+        cx.verdict(not g.success_returns_from(0, blocked=snd), r5, owner + ":result-sent", g.where(),
+                   "the result is sent on every path", "a job closure of %s can finish without sending the result: the submitter blocks forever" % owner)
+    waiters = [(h, c) for h in runner_fns if h.kind != "closure" for c in h.calls() if c.callee.endswith("Receiver::<T>::recv")]
+    if len(waiters) < 2:
+        cx.bad(r5, "recv:anchor-missing", "", "fewer than two SharedTaskRunner methods wait on a result channel")
+    seen_w = set()
+    for h, rc in waiters:
+        nm_ = h.id.rsplit("::", 1)[-1]
+        if nm_ in seen_w:
+            continue
+        seen_w.add(nm_)
+        cx.verdict(bool(h.reachable(rc.term["to"]) & h.err_blocks()) if rc.term.get("to") is not None else False, r5, nm_ + ":recv-error-propagated", h.where(),
+                   "a closed channel is reported as an error", "recv errors are not propagated")
+        # Sender locals still owned when recv is reached: dropped (by scope end) somewhere after the wait
+        after = h.reachable(rc.bb)
+        late = [bi for bi in after if h.blocks[bi]["term"]["t"] == "drop" and "mpsc::Sender<" in str(h.blocks[bi]["term"].get("ty", ""))
+                and not h.blocks[bi].get("cleanup")]
+        # a loop that receives many results (run_all) owns no sender either: it dropped it explicitly before draining
+        cx.verdict(not late, r5, nm_ + ":no-sender-kept-while-waiting", rc.where(), "every Sender was moved into the jobs (or dropped) before the wait",
+                   "%s still owns a Sender of the channel it waits on (dropped only after recv): when the job panics on the worker the "
+                   "channel never closes and the client that issued the statement blocks forever" % nm_)
 
 
     # ---- C14.6 commit order vs snapshot bound (construct shared with C04.6) ------------------------------------
